@@ -230,22 +230,18 @@ func (s *Summ) bypassPath(fn *ssa.Function, start Point, ev map[ssa.Instruction]
 	}
 	var guard func(*ssa.BasicBlock, int) bool
 	if s.AllowEmptyGuards {
-		allowed := map[ssa.Value]bool{}
+		var calls []ssa.CallInstruction
 		for in := range ev {
 			switch x := in.(type) {
 			case ssa.CallInstruction:
-				for r := range rootsOfCall(x) {
-					allowed[r] = true
-				}
+				calls = append(calls, x)
 			case *ssa.RunDefers:
 				for _, d := range deferredAt(x, true) {
-					for r := range rootsOfCall(d) {
-						allowed[r] = true
-					}
+					calls = append(calls, d)
 				}
 			}
 		}
-		guard = edgeSet(emptinessGuardEdges(fn, allowed))
+		guard = edgeSet(emptinessGuardEdgesFor(fn, calls))
 	}
 	if s.LoopsRunOnce {
 		addLoopEvents(s.P, fn, evAll, orEdge(guard, extraBlocked))
